@@ -148,6 +148,7 @@ SCHEMES = {
     "unifying": [[0., 1., 1., 0., 1., 1.], [1., 1., 0., 1., 1., 0.]],
     "unifying-p0.5": [[0., 1., .5, 0., 1., .5], [.5, .5, 0., .5, .5, 0.]],
     "induced": [[0., 1., 1., 0., 0., 0.], [1., 1., 0., 0., 0., 0.]],
+    "induced-p0.5": [[0., 1., .5, 0., 0., 0.], [.5, .5, 0., 0., 0., 0.]],
     "pseudodistance": [[0., 1., 1., 0., 1., 0.], [1., 1., 0., 1., 1., 0.]],
     "generic": [[0., 2., 1., 1., 3., 4.], [1., 1., 0., 2., 2., 5.]],
     "b5-gt-t5": [[0., 1., .5, .5, 1., 2.], [1., 1., 0., 2., 2., 0.]],
